@@ -81,6 +81,11 @@ def run(tier="quick", root="/repo", evidence_dir=None, quiet=False):
         if isinstance(n, ast.Assign) and isinstance(n.value, ast.Subscript) and \
                 norm(n.value.value) in table_names and isinstance(n.targets[0], ast.Name):
             entry_var = n.targets[0].id
+        # `entry = table.get(symbol)` (a missing element is rejected explicitly afterwards)
+        if isinstance(n, ast.Assign) and isinstance(n.value, ast.Call) and isinstance(n.value.func, ast.Attribute) and \
+                n.value.func.attr == "get" and norm(n.value.func.value) in table_names and len(n.value.args) == 1 and \
+                isinstance(n.targets[0], ast.Name):
+            entry_var = n.targets[0].id
     if entry_var is None:
         raise AnalysisError("unrecognised idiom: loader does not read `_ATOMIC_GAUSS_PARAMS_CACHE[<symbol>]`")
     reads = {}
